@@ -181,12 +181,10 @@ def run(ctx):
             gr = gg.grammar(depth=3)
             strings = G.strings_for(rng, gr, 4, maxlen=10)
             reqs = [(rng.choice(["lparse", "parse"]), rng.choice(strings), 0) for _ in range(16)]
-            # a grammar on which the real code needs more than a few CPU seconds for these short inputs is a matter for C12
-        # (work bound, known finding F14): skipped and counted here
-        seq = ec.with_budget(ec.CASE_BUDGET_S, lambda: sequential(P, gr, reqs), None)
-        if seq is None:
-            slow_skipped[0] += 1
-            continue
+            seq = ec.with_budget(ec.CASE_BUDGET_S, lambda: sequential(P, gr, reqs), None)
+            if seq is None:
+                slow_skipped[0] += 1
+                continue
             cls, rules = G.build(P, gr)
             for r_ in c08.repetitions(P, rules):
                 r_.lparse_cache.max_size = rng.choice([None, 1, 2])
